@@ -104,6 +104,13 @@ def analyse_parser(ctx: Ctx, ci: ClassInfo, fi: FuncInfo) -> Dict[str, object]:
                             expected="<normalised input> == member value", found=strip_v(loose[0])[:140])
                 info.update({"lookup": "value", "needs_eq": False, "normalise": "none", "returns": "member", "ret_text": "?", "nonmember": ["raise"]})
                 return info
+        if not sames:
+            neg = [k for k, v in bp.conds if (not v) and k.startswith("same:")]
+            if len(neg) == 1 and len(bp.conds) == 1:
+                ctx.violate("C20-exact-match", f"{ci.name}.{fi.name}", "match-test-inverted", f"{ci.name}.{fi.name} returns a member when `{strip_v(neg[0])[5:]}` is FALSE: the first member that differs from the query is returned", fi=fi,
+                            expected="return the member that equals the query", found="!" + strip_v(neg[0])[5:])
+                info.update({"lookup": "value", "needs_eq": False, "normalise": "none", "returns": "member", "ret_text": "?", "nonmember": ["raise"]})
+                return info
         ctx.require(len(sames) == 1, f"{fi.qualname}: the match test is not a single equality ({bp.cond_text()})")
         a, b = strip_v(sames[0][5:]).split("==")
         a, b = a.strip(), b.strip()
